@@ -534,6 +534,18 @@ def include_cases():
     # the included symbols are usable
     out.append(mk("include('common.cond')\n", True, "symbols", files=good))
     out[-1][0]["prologue"] = "include('common.cond')\nassert REPS == 3 and THREADS == 16\n"
+    # ... also the functions, lambdas and classes an included file defines, which refer to the file's own symbols
+    # and imports when they are called (D29: the file was executed with separate globals and locals, so such a
+    # reference failed with NameError -- at the call in the COND file, or inside the included file's class body /
+    # comprehension)
+    fn = {DIR + "/common.cond": "import os\nBASE = 3\nSIZES = [1, 2]\ndef threads():\n    return BASE * 2\nscale = lambda s: BASE * s\n"
+                                "def here():\n    return os.sep\nclass Cfg:\n    reps = BASE\n    doubled = [BASE * s for s in SIZES]\nSCALED = [BASE * s for s in SIZES]\n"}
+    for tag, pro in (("function", "assert threads() == 6\n"), ("lambda", "assert scale(4) == 12\n"), ("import", "assert here() == '/'\n"),
+                     ("class", "assert Cfg.reps == 3 and Cfg.doubled == [3, 6]\n"), ("comprehension", "assert SCALED == [3, 6]\n")):
+        out.append(mk("include('common.cond')\n", True, "symbols-" + tag, files=fn))
+        out[-1][0]["prologue"] = "include('common.cond')\n" + pro
+    # the included file's builtins and scope do not leak Conductor's constructors into it, nor `__builtins__` out of it
+    out.append(mk("include('common.cond')\n", False, "task-defining", files={DIR + "/common.cond": "def f():\n    return run_command\nf()\n"}, must="common.cond"))
     return out
 
 
